@@ -155,6 +155,7 @@ class World(object):
         self.slots = []
         self.containers = []      # [obj, pristine]
         self.configs = []         # caller-owned Config instances handed to constructors (config=)
+        self.cfg_template = None  # index into configs of the object installed as Config.template
         self.template = None      # slot index whose object is Fxp.template
         self.all_cbs = []
         self._cid = 0
@@ -1272,6 +1273,26 @@ class World(object):
         self.template = None
         self.bump('fault_F5_template_flip')
 
+    def op_cfg_template(self, st):
+        """Flip the process-global Config.template (fault F5) to one of the caller's Configs, or
+        clear it.  Objects built afterwards take their defaults from a deep copy of it."""
+        op = st.op
+        st.kind = 'env'
+        st.pure = True
+        if op.get('c') is None:
+            if self.cfg_template is None:
+                raise Skip('no Config.template')
+        elif not self.configs:
+            raise Skip('no config')
+        yield
+        if op.get('c') is None:
+            Config.template = None
+            self.cfg_template = None
+        else:
+            self.cfg_template = op['c'] % len(self.configs)
+            Config.template = self.configs[self.cfg_template]
+        self.bump('fault_F5_config_template_flip')
+
     def op_cont_new(self, st):
         if len(self.containers) >= 4:
             raise Skip('containers full')
@@ -1376,6 +1397,7 @@ class World(object):
         Fxp.template = None
         Config.template = None
         self.template = None
+        self.cfg_template = None
 
 
 def run_program(ops, oracles, profile=None, stop_on_violation=True):
